@@ -44,6 +44,16 @@ def gen(rng, tier):
             s.loads += G.gen_loads_for_bar(rng, s.bars[0]["id"], nmax=3, allow_mz_dist=False) or []
         # every factor is used by some group of every run (the tiny ones push whole load sets under the
         # absolute 1e-10 thresholds of the code), the second factor is drawn
+        # the code identifies positions closer than 1e-10: a load set and its halves would then put a node at
+        # slightly different places, which is not a failure of superposition - keep one load per such cluster
+        kept, seen = [], {}
+        for l in s.loads:
+            ps = [l["t"]] if l["kind"] == "c" else [l["t0"], l["t1"]]
+            if any(0 < abs(p - q) < Fr("2e-10") for p in ps for q in seen.get(l["bar"], []) + [Fr(0), Fr(1)]):
+                continue
+            seen.setdefault(l["bar"], []).extend(ps)
+            kept.append(l)
+        s.loads = kept
         ks = [FACTORS[g % len(FACTORS)]]
         ks.append(rng.choice([k for k in FACTORS if k != ks[0]]))
         half = [rng.random() < 0.5 for _ in s.loads]
@@ -57,6 +67,18 @@ def gen(rng, tier):
                 for tt, h in ((t0, True), (t0 + d, False)):
                     s.loads.append({"kind": "c", "term": rng.choice(["fy", "fy", "fx", "mz"]), "local": True, "bar": b["id"], "t": tt,
                                     "v": Fr(rng.choice([-1, 1]) * rng.choice([100, 250, 1000]))})
+                    half.append(h)
+        if g % 3 == 1:
+            # a local-axes and a global-axes load at exactly the same point of a (preferably inclined) bar, one in each half
+            def inclined(b):
+                (x1, y1, _), (x2, y2, _) = s.nodes[b["n1"]], s.nodes[b["n2"]]
+                return x1 != x2 and y1 != y2
+            cand = [b for b in s.bars if b["l1"][2] or b["l2"][2]] or s.bars
+            b = ([b for b in cand if inclined(b)] or cand)[0]
+            tt = Fr(rng.choice(["0.5", "0.3", "0.8125"]))
+            if all(abs(tt - x) > Fr("0.002") for l in s.loads if l["bar"] == b["id"] for x in ([l["t"]] if l["kind"] == "c" else [l["t0"], l["t1"]])):
+                for local, term, h in ((True, "fy", True), (False, rng.choice(["fx", "fy"]), False)):
+                    s.loads.append({"kind": "c", "term": term, "local": local, "bar": b["id"], "t": tt, "v": Fr(rng.choice([-3000, 2000, 700]))})
                     half.append(h)
         group = [("base", s, BASE_ERR, None)]
         for k in ks:
@@ -158,7 +180,7 @@ SPEC = {
     "stages": [("F", lambda c, o, rng: solcore.stageF(c, o, rng) if c.get("role") in ("base", "scaled") else None, P.stageF_v, 2, 40)],
     "nontrivial": lambda c, o: M.solved(o) and c.get("role") in ("scaled", "part1"),
     "rule": "groups of six runs of one solvable structure (as C01): the load set, the same with every load multiplied by two factors from {1e-13, -1, 1e-16, 0.5, 3, -2.5, 1e6, 1e-6, 1e3} (each factor used by some group of every run) "
-            "(requested error scaled with the factor), two complementary halves of the load set (every other group holds two concentrated loads 2e-4 .. 9.9e-4 apart, one in each half), and no loads. Oracle: every displacement, local displacement, diagram value (both sides of every "
+            "(requested error scaled with the factor), two complementary halves of the load set (every other group holds two concentrated loads 2e-4 .. 9.9e-4 apart, one in each half; every third a local-axes and a global-axes load at the same point, one in each half), and no loads. Oracle: every displacement, local displacement, diagram value (both sides of every "
             "common position) and reaction of the scaled run equals factor x the base run; base run = sum of the two halves; the unloaded run is identically zero; tolerances from the requested "
             "errors and the conditioning of each system (C01_error_bound) and the stiffness of the shortest slice. non-trivial iff a scaled or partial run solved.",
     "assumptions": ["solver oracle as C01; the solver's absolute stopping rule makes the implementation linear only up to the C01 error bound, which is the tolerance used",
